@@ -411,7 +411,7 @@ func (in *Interp) store(t types.Type, addr *Value, v Value) {
 	if addr == nil {
 		in.throw("invalid memory address or nil pointer dereference")
 	}
-	in.checkWatch(addr)
+	in.checkWatchW(addr, true)
 	if in.recording != nil {
 		in.recordWrite(addr)
 	}
@@ -425,7 +425,8 @@ func (in *Interp) recordWrite(addr *Value) {
 	}
 	var held []*Value
 	for mu, ms := range in.mutexes {
-		if ms.writer || ms.readers > 0 {
+		// only an exclusive (write-mode) hold protects a write: two holders of a read lock run concurrently
+		if ms.writer {
 			held = append(held, mu)
 		}
 	}
@@ -455,13 +456,15 @@ func (in *Interp) storeRaw(addr *Value, v Value) {
 	}
 }
 
-func (in *Interp) checkWatch(addr *Value) {
+func (in *Interp) checkWatch(addr *Value) { in.checkWatchW(addr, false) }
+
+func (in *Interp) checkWatchW(addr *Value, write bool) {
 	if len(in.watch) == 0 {
 		return
 	}
 	if w, ok := in.watch[addr]; ok {
 		ms := in.mutexes[w.mu]
-		if ms == nil || (!ms.writer && ms.readers == 0) {
+		if ms == nil || (!ms.writer && ms.readers == 0) || (write && !ms.writer) {
 			in.res.addViolation(in, "lockset:"+w.label, "access to guarded field without holding its lock at "+in.posStr(in.curPos), nil)
 		}
 	}
